@@ -70,8 +70,10 @@ def run_z(zobls, jobs: int):
         cmd = [runner.PY, "-m", "tplz3.run", z["module"], z["func"], json.dumps(z.get("args", {}))]
         try:
             p = subprocess.run(cmd, env=env, cwd=VERIF, capture_output=True, text=True, timeout=z.get("timeout", 300))
-        except subprocess.TimeoutExpired:
-            return dict(z, verdict="inconclusive", reason="hard timeout", wall_s=time.time() - t0)
+        except subprocess.TimeoutExpired as e:
+            so = e.stdout.decode("utf8", "replace") if isinstance(e.stdout, bytes) else (e.stdout or "")
+            viol = [json.loads(ln[11:]) for ln in so.splitlines() if ln.startswith("ZVIOLATION ")]
+            return dict(z, verdict="inconclusive", reason="hard timeout (solver did not return)", violations=viol, wall_s=time.time() - t0)
         out = None
         for ln in p.stdout.splitlines():
             if ln.startswith("ZRESULT "):
@@ -107,9 +109,12 @@ def cmd_check(args) -> int:
         if args.verbose:
             print(f"  [{r.verdict:12}] {r.obl.name}  {r.wall_s:.0f}s paths={r.paths} {r.reason or r.message[:100]}", flush=True)
 
-    # Z first (cheap), then X
-    zres = run_z(zobls, jobs) if zobls else []
-    xres = runner.run_all(xobls, jobs=jobs, progress=progress)
+    # Z and X concurrently
+    import concurrent.futures as _cf
+    with _cf.ThreadPoolExecutor(max_workers=2) as _ex:
+        _zf = _ex.submit(run_z, zobls, max(2, jobs // 4)) if zobls else None
+        xres = runner.run_all(xobls, jobs=jobs, progress=progress)
+        zres = _zf.result() if _zf else []
 
     known = load_known()
     violations = []
@@ -179,7 +184,7 @@ def cmd_check(args) -> int:
 
     # report
     nconf = sum(1 for r in xres if r.verdict == "confirmed" and r.obl.expect == "confirm")
-    ninc = [r for r in xres if r.verdict == "inconclusive"]
+    ninc = [r for r in xres if r.verdict == "inconclusive" and r.obl.expect != "find"]
     print(f"{prop} [{tier}] X: {nconf} confirmed, {len(ninc)} inconclusive, "
           f"{sum(1 for r in xres if r.obl.expect == 'refute' and r.verdict == 'refuted')} twins refuted (expected); "
           f"Z: {sum(z.get('discharged', 0) for z in zres)}/{sum(z.get('queries_total', 0) for z in zres)} queries discharged; "
